@@ -88,10 +88,10 @@ theorem C13_known_empty (c : Case) : known c = [] := rfl
     `_asdict_anything` on the same value build the same thing (without serializer: on every value; with the
     scalar-wrapping serializer: on every non-scalar). -/
 theorem C13_sites_agree (o : Opts) (c : Nat) (f : FI) (v : PVal)
-    (h : o.ser = .off ∨ (o.ser = .wrapLeaf ∧ isAtom v = false)) : fieldD o c f v = anything o false v := by
+    (h : o.ser = .off ∨ (o.ser = .wrapLeaf ∧ isScalarV v = false)) : fieldD o c f v = anything o false v := by
   rcases h with h | ⟨h, ha⟩
-  · cases v <;> simp [fieldD, anything, h, serFieldAtom, serLeaf]
-  · cases v <;> simp_all [fieldD, anything, isAtom]
+  · cases v <;> simp [fieldD, anything, h, serFieldAtom, serLeaf, serApplies]
+  · cases v <;> simp_all [fieldD, anything, isScalarV, serFieldAtom, serLeaf, serApplies]
 
 /-- **C13_instance_by_fields**: what makes a value an attrs instance for the conversion is that it has a field
     list (`has(type(v))`, resolved through the MRO) — the model takes nothing else from the class: at both sites
@@ -111,13 +111,26 @@ theorem C13_instance_by_fields (o : Opts) (hs : o.ser = .off) (c c' : Nat) (h h'
     | cons p r ih =>
       obtain ⟨g, v⟩ := p
       have hv : fieldD o c g v = fieldD o c' g v := by
-        cases v <;> simp [fieldD, hs, serFieldAtom]
+        cases v <;> simp [fieldD, hs, serFieldAtom, serApplies]
       simp [fieldsD, ih, hv]
   refine ⟨?_, ?_, ?_, ?_⟩
   · simp [anything, key]
   · simp [fieldD, hs, key]
   · simp [tfield]
   · simp [tmember]
+
+/-- **C13_other_objects_untouched**: a value that is neither an attrs instance nor a list / tuple / set / dict —
+    an attrs *class* object, a plain class, an object with a catch-all `__getattr__`, a module, a function — is
+    handed through as it is at every position: field value, member, dict key (unless the serializer is one that
+    replaces it); `astuple` likewise. -/
+theorem C13_other_objects_untouched (o : Opts) (hw : o.ser = .off ∨ o.ser = .wrapLeaf) (c : Nat) (f : FI) (isKey : Bool)
+    (flt : Filter) (k n : Nat) :
+    anything o isKey (.atom (.obj k n)) = .ok (.atom (.obj k n)) ∧
+    fieldD o c f (.atom (.obj k n)) = .ok (.atom (.obj k n)) ∧
+    tfield o flt (.atom (.obj k n)) = .ok (.atom (.obj k n)) ∧
+    tmember o flt (.atom (.obj k n)) = .ok (.atom (.obj k n)) := by
+  rcases hw with hs | hs <;>
+    simp [anything, fieldD, tfield, tmember, serLeaf, serFieldAtom, serApplies, Atom.isScalar, hs]
 
 /-! ## Keys -/
 
@@ -229,18 +242,23 @@ theorem C13_container_shapes_field (o : Opts) (c : Nat) (f : FI) (flt : Filter) 
 
 /-- **C13_serializer_positions** (the reading of "applied to every value" fixed in DESIGN §5):
     a field value goes through `value_serializer(inst, a, v)` *before* recursion — so an opaque result stops
-    it —, a scalar inside a container through `value_serializer(None, None, v)`; containers and instances
-    inside containers are not passed to it. -/
+    it —, a leaf inside a container through `value_serializer(None, None, v)`; containers and instances
+    inside containers are not passed to it.  (The symbolic serializers: `wrap` replaces every value,
+    `wrapLeaf` replaces int / str / None, `wrapAtoms` every value that is not an attrs instance / list / tuple /
+    set / dict — class objects, functions, … included; everything else is returned as it is.) -/
 theorem C13_serializer_positions (o : Opts) (c : Nat) (f : FI) (isKey : Bool) :
     (∀ v, o.ser = .wrap → fieldD o c f v = .ok (.ser (some c) (some f.name) (embed v))) ∧
-    (∀ a, o.ser ≠ .off → fieldD o c f (.atom a) = .ok (.ser (some c) (some f.name) (.atom a))) ∧
-    (∀ a, o.ser ≠ .off → anything o isKey (.atom a) = .ok (.ser none none (.atom a))) ∧
-    (∀ a, o.ser = .off → fieldD o c f (.atom a) = .ok (.atom a) ∧ anything o isKey (.atom a) = .ok (.atom a)) := by
-  refine ⟨?_, ?_, ?_, ?_⟩
-  · intro v h; cases v <;> simp [fieldD, h, serFieldAtom, embed]
-  · intro a h; cases hs : o.ser <;> simp_all [fieldD, serFieldAtom]
-  · intro a h; cases hs : o.ser <;> simp_all [anything, serLeaf]
+    (∀ a, serApplies o.ser a = true → fieldD o c f (.atom a) = .ok (.ser (some c) (some f.name) (.atom a))) ∧
+    (∀ a, serApplies o.ser a = true → anything o isKey (.atom a) = .ok (.ser none none (.atom a))) ∧
+    (∀ a, serApplies o.ser a = false →
+      fieldD o c f (.atom a) = .ok (.atom a) ∧ anything o isKey (.atom a) = .ok (.atom a)) ∧
+    (∀ a, serApplies o.ser a = (o.ser == .wrap || o.ser == .wrapAtoms || (o.ser == .wrapLeaf && a.isScalar))) := by
+  refine ⟨?_, ?_, ?_, ?_, ?_⟩
+  · intro v h; cases v <;> simp [fieldD, h, serFieldAtom, serApplies, embed]
+  · intro a h; simp [fieldD, serFieldAtom, h]
+  · intro a h; simp [anything, serLeaf, h]
   · intro a h; simp [fieldD, anything, h, serFieldAtom, serLeaf]
+  · intro a; cases hs : o.ser <;> simp [serApplies]
 
 /-- … and globally: with a serializer no bare scalar is left anywhere in the result of `asdict` (every value
     went through it), without one the result contains no serializer node; any depth. -/
